@@ -163,7 +163,8 @@ Qed.
 Lemma step_refuses c w k rq : allow_write c = false -> mutating rq = true ->
   o_out (step c w k rq) = be32 (wrap32 (-1)) /\ o_close (step c w k rq) = false /\ o_conn (step c w k rq) = k.
 Proof.
-  intros Ha Hm. destruct rq; try discriminate; cbn [step]; rewrite Ha; cbn [negb]; auto.
+  intros Ha Hm. destruct rq; try discriminate; cbn [step]; rewrite Ha; cbn [negb]; auto;
+    destruct (is_nil (rooted_elems p)); auto.
 Qed.
 
 Theorem serve_readonly c : allow_write c = false -> forall fuel w k input,
